@@ -6,7 +6,7 @@ From YV Require Import Gen.PatConsts Pat.Syntax Pat.Sem Pat.Matcher Pat.MatcherP
   Pat.Modifiers Pat.ModifiersProofs Pat.MatchList Pat.MatchListProofs
   Pat.C01Check Pat.C01CheckProofs Pat.Base64 Pat.Base64Proofs Pat.Chain Pat.ChainProofs
   Pat.Atoms Pat.AtomsProofs Pat.Pipeline Pat.PipelineProofs Pat.PipelineB64Proofs
-  Pat.ChainRun Pat.ChainRunProofs Pat.ChainCompleteProofs Pat.PipelineB64CompleteProofs.
+  Pat.ChainRun Pat.ChainRunProofs Pat.ChainCompleteProofs Pat.PipelineB64CompleteProofs Pat.ChainEndProofs.
 Import ListNotations.
 
 (* ---- R |= S : the reference matcher ------------------------------------ *)
@@ -357,20 +357,24 @@ Theorem chain_complete_with_all_piece_ends : forall nc greedy c d,
 Proof. exact chain_complete_all_ends. Qed.
 Print Assumptions chain_complete_with_all_piece_ends.
 
-(* Base64Wide / CustomBase64Wide: the statement left open before, proved for data
-   without '=' ... *)
-Theorem base64_pipeline_sound_wide : pipeline_base64_sound_wide_partial_statement.
-Proof. exact pipeline_base64_sound_wide_partial. Qed.
+(* Base64Wide / CustomBase64Wide: soundness in full (since commit b2a39c9f only trailing
+   padding is stripped from a wide window; before, the statement was refuted: a '=' in
+   the middle of the window was dropped) *)
+Theorem base64_pipeline_sound_wide : forall lit d p pos alpha s e,
+  p <= 2 -> lit <> [] ->
+  verify_base64 lit d p pos alpha true = Some (s, e) ->
+  sp_match (mkSP (KBase64 lit p alpha true) (mkF false false false false)) (0, 0)%N d s = Some (e, None).
+Proof. exact pipeline_base64_sound_wide. Qed.
 Print Assumptions base64_pipeline_sound_wide.
 
-(* ... and REFUTED without that side condition (replayed on the implementation: known
-   finding C01:scan:base64wide-pad-inside-window) *)
-Theorem base64_wide_pad_inside_window_accepted :
-  exists lit d p pos alpha s e, p <= 2 /\ lit <> [] /\
-    verify_base64 lit d p pos alpha true = Some (s, e) /\
-    sp_match (mkSP (KBase64 lit p alpha true) (mkF false false false false)) (0, 0)%N d s = None.
-Proof. exact pipeline_base64_sound_wide_refuted. Qed.
-Print Assumptions base64_wide_pad_inside_window_accepted.
+(* the regression of the repaired defect: the window with '=' in the middle is rejected,
+   trailing padding still accepted *)
+Theorem base64_wide_pad_inside_window_rejected :
+  verify_base64 b64w_pad_lit b64w_pad_data 0 4 std_alphabet true = None /\
+  sp_match (mkSP (KBase64 b64w_pad_lit 0 std_alphabet true) (mkF false false false false)) (0, 0)%N b64w_pad_data 4 = None /\
+  verify_base64 b64w_pad_lit b64w_trailing_pad_data 0 4 std_alphabet true = Some (4, 14).
+Proof. exact base64wide_pad_inside_window_rejected. Qed.
+Print Assumptions base64_wide_pad_inside_window_rejected.
 
 (* Base64* completeness (the statement left open before), with the side conditions it
    needs -- a proper alphabet without '=' (checked on the dumped alphabets in K stream
@@ -392,3 +396,49 @@ Theorem recorded_hits_check_gives_hits_exact : forall kernel atoms d hits,
   hits_ok kernel atoms d hits = true -> hits_exact atoms d hits.
 Proof. exact hits_ok_exact. Qed.
 Print Assumptions recorded_hits_check_gives_hits_exact.
+
+(* ---- which end is reported for a start ------------------------------------------------- *)
+(* the end of every reported match is the end of a match of the last piece that closes a
+   chain of events from a head with that start *)
+Theorem chain_reported_end_closes_a_chain :
+  forall (pieces : list cpiece) (n : nat) (gp : nat -> cgap),
+  (forall p, nth_error pieces 0 = Some p -> cp_link p = None) ->
+  (forall i p, nth_error pieces (S i) = Some p -> cp_link p = Some (i, gp i)) ->
+  (forall id p, nth_error pieces id = Some p -> cp_last p = Nat.eqb id n) ->
+  forall evs y, In y (run_chain pieces evs) ->
+  exists s0 st te, m_start y = N.of_nat s0 /\ m_end y = N.of_nat te /\ left gp evs n st te s0.
+Proof. exact run_chain_end_closes. Qed.
+Print Assumptions chain_reported_end_closes_a_chain.
+
+(* LAZY, events in the order of their end offset: the smallest such end *)
+Theorem chain_lazy_reports_shortest :
+  forall (pieces : list cpiece) (n : nat) (gp : nat -> cgap) (greedy : bool),
+  1 <= n -> length pieces = S n ->
+  (forall p, nth_error pieces 0 = Some p -> cp_link p = None) ->
+  (forall i p, nth_error pieces (S i) = Some p -> cp_link p = Some (i, gp i)) ->
+  (forall id p, nth_error pieces id = Some p -> cp_last p = Nat.eqb id n) ->
+  (forall id p, nth_error pieces id = Some p -> cp_greedy p = greedy) ->
+  forall evs, greedy = false -> ordered evs -> ends_sorted evs ->
+  (forall k s e, In (k, s, e) evs -> s <= e /\ k <= n) ->
+  forall y s0, In y (run_chain pieces evs) -> m_start y = N.of_nat s0 ->
+  forall s' e', left gp evs n s' e' s0 -> (m_end y <= N.of_nat e')%N.
+Proof. exact chain_lazy_shortest. Qed.
+Print Assumptions chain_lazy_reports_shortest.
+
+(* end to end for a lazy split pattern fed with every end of every piece: one match per
+   start, a genuine one, the shortest *)
+Theorem chain_lazy_end_choice : forall nc c d,
+  snd c <> [] -> (forall r, In r (chain_res c) -> 1 <= min_len r) ->
+  chain_end_choice nc false c d (scan_chain_all_ends nc false false c d).
+Proof. exact chain_lazy_end_choice_all_ends. Qed.
+Print Assumptions chain_lazy_end_choice.
+
+(* GREEDY: "the longest" is refuted on the events the implementation produces for
+   /hh.*qq(aqqb)?/s on "hh_qqaqqb" (reports 0..8, the occurrence 0..9 exists): MatchList::add
+   overwrites the end of the last match without comparing.  Accepted as undocumented. *)
+Theorem chain_greedy_not_the_longest :
+  exists pieces gp evs y s e,
+    events_ordered_b evs = true /\ In y (run_chain pieces evs) /\ m_start y = 0%N /\
+    left gp evs 1 s e 0 /\ (m_end y < N.of_nat e)%N.
+Proof. exact chain_greedy_longest_refuted. Qed.
+Print Assumptions chain_greedy_not_the_longest.
